@@ -160,6 +160,18 @@ def regenerate():
     # solver_configuration) -> Generated/PyLogic2.lean (see py2lean2.py)
     import py2lean2
     py2lean2.generate()
+    # extension E59: the Python wrappers of pyamg/aggregation/aggregate.py and the dispatch of
+    # classical_strength_of_connection -> Generated/PyLogic3_aggstr.lean (see py2lean3_aggstr.py)
+    import py2lean3_aggstr
+    py2lean3_aggstr.generate()
+    # extension E57: MultilevelSolver.__solve (the V / W / F / AMLI cycle recursion) -> Generated/PyLogic3_cycle.lean
+    # (see py2lean3_cycle.py)
+    import py2lean3_cycle
+    py2lean3_cycle.generate()
+    # extension E58: the Python wrappers of pyamg/classical/split.py and pyamg/classical/interpolate.py ->
+    # Generated/PyLogic3_classical.lean (see py2lean3_classical.py)
+    import py2lean3_classical
+    py2lean3_classical.generate()
 
 
 def pin():
